@@ -3,4 +3,5 @@
 n=$(ls "$XSHIM_DIR" 2>/dev/null | grep -c '^mail\.')
 cat > "$XSHIM_DIR/mail.$n"
 echo "$@" > "$XSHIM_DIR/mailargs.$n"
-exit 0
+# a mailer that takes the message and fails all the same (exit code in $XSHIM_DIR/mailrc), e.g. EX_TEMPFAIL
+exit $(cat "$XSHIM_DIR/mailrc" 2>/dev/null || echo 0)
